@@ -517,6 +517,15 @@ impl World {
                 let (b, bytes) = self.buffer.take().unwrap();
                 let alias: Buffer = std::ptr::read(&b);
                 let out = redirectionio_action_body_filter_filter(std::ptr::null_mut(), alias);
+                // Buffer is #[repr(C)] { data: *mut u8, len: usize }
+                let in_raw: (usize, usize) = std::mem::transmute_copy(&b);
+                let out_raw: (usize, usize) = std::mem::transmute_copy(&out);
+                if in_raw.0 != 0 && in_raw.0 == out_raw.0 {
+                    self.mismatch("body_filter_filter(NULL)-returns-the-callers-buffer", "the result shares its storage with the input buffer: releasing both is a double free".into());
+                    std::mem::forget(out);
+                    self.buffer = Some((b, bytes));
+                    return;
+                }
                 let out_bytes = out.to_vec();
                 if out_bytes != bytes {
                     self.mismatch("body_filter_filter(NULL)-not-a-copy", format!("{} bytes vs {} bytes", out_bytes.len(), bytes.len()));
